@@ -154,6 +154,16 @@ def abstract_heap(objs, nobj, inv):
             if vs != want:
                 problems.append(f"object {o}: continuum[{a!r}] = {vs} but iteration gives {want}")
         heap.append(_canon(c))
+    # == / != between all live objects: equal iff same annotators and same units (an equivalence on (annotators, units))
+    ids = sorted(objs)
+    for i in ids:
+        for j in ids:
+            hi_, hj_ = heap[i - 1], heap[j - 1]
+            if "bad" in hi_ or "bad" in hj_:
+                continue
+            want = hi_["ann"] == hj_["ann"] and hi_["units"] == hj_["units"]
+            if (objs[i] == objs[j]) != want or (objs[i] != objs[j]) == want:
+                problems.append(f"objects {i} == {j}: library says {objs[i] == objs[j]}, model says {want}")
     return heap, problems
 
 
